@@ -192,30 +192,49 @@ func parse(role, s string) (p parsed, pnc any) {
 	return
 }
 
-func setAndJSON(role, s string) (set parsed, js parsed, pnc any) {
+// setAndJSON decodes the text with Set and UnmarshalJSON - into fresh variables, or (used) into variables that already hold
+// another address with a port of its own, as a configuration struct that is loaded a second time does.
+func setAndJSON(role, s string, used bool) (set parsed, js parsed, pnc any) {
 	defer func() { pnc = recover() }()
 	q, _ := json.Marshal(s)
+	const earlier = "10.0.0.1:12345"
 	switch role {
 	case "bind":
 		var a, b types.BindAddr
+		if used {
+			a.Set(earlier)
+			b.Set(earlier)
+		}
 		set = parsed{err: a.Set(s)}
 		set.ap = a.AddrPort
 		js = parsed{err: json.Unmarshal(q, &b)}
 		js.ap = b.AddrPort
 	case "broadcast":
 		var a, b types.BroadcastAddr
+		if used {
+			a.Set(earlier)
+			b.Set(earlier)
+		}
 		set = parsed{err: a.Set(s)}
 		set.ap = a.AddrPort
 		js = parsed{err: json.Unmarshal(q, &b)}
 		js.ap = b.AddrPort
 	case "listen":
 		var a, b types.ListenAddr
+		if used {
+			a.Set(earlier)
+			b.Set(earlier)
+		}
 		set = parsed{err: a.Set(s)}
 		set.ap = a.AddrPort
 		js = parsed{err: json.Unmarshal(q, &b)}
 		js.ap = b.AddrPort
 	case "controller":
 		var a, b types.ControllerAddr
+		if used {
+			a.Set(earlier)
+			b.Set(earlier)
+		}
 		set = parsed{err: a.Set(s)}
 		set.ap = a.AddrPort
 		js = parsed{err: json.Unmarshal(q, &b)}
@@ -309,15 +328,18 @@ func decide(c aCase) (*rp.Fail, verdict) {
 		}
 	}
 	if v != dontCare {
-		set, js, pnc := setAndJSON(c.Role, c.S)
-		if pnc != nil {
-			return rp.Failf(site+"/set-json-panic", "Set/UnmarshalJSON(%q) panicked: %v", c.S, pnc), v
-		}
-		if (set.err == nil) != (got.err == nil) || (set.err == nil && set.ap != got.ap) {
-			return rp.Failf(site+"/set-disagrees", "Set(%q) = %v, %v but Parse = %v, %v", c.S, set.ap, set.err, got.ap, got.err), v
-		}
-		if (js.err == nil) != (got.err == nil) || (js.err == nil && js.ap != got.ap) {
-			return rp.Failf(site+"/json-disagrees", "UnmarshalJSON(%q) = %v, %v but Parse = %v, %v", c.S, js.ap, js.err, got.ap, got.err), v
+		for _, used := range []bool{false, true} {
+			set, js, pnc := setAndJSON(c.Role, c.S, used)
+			into := map[bool]string{false: "", true: " (into a variable that held 10.0.0.1:12345)"}[used]
+			if pnc != nil {
+				return rp.Failf(site+"/set-json-panic", "Set/UnmarshalJSON(%q)%s panicked: %v", c.S, into, pnc), v
+			}
+			if (set.err == nil) != (got.err == nil) || (set.err == nil && set.ap != got.ap) {
+				return rp.Failf(site+"/set-disagrees", "Set(%q)%s = %v, %v but Parse = %v, %v", c.S, into, set.ap, set.err, got.ap, got.err), v
+			}
+			if (js.err == nil) != (got.err == nil) || (js.err == nil && js.ap != got.ap) {
+				return rp.Failf(site+"/json-disagrees", "UnmarshalJSON(%q)%s = %v, %v but Parse = %v, %v", c.S, into, js.ap, js.err, got.ap, got.err), v
+			}
 		}
 	}
 	return nil, v
